@@ -103,3 +103,32 @@ def c07(deadline, rng, tier):
 
 def c11(deadline, rng, tier):
     return _run(C11_CASES)
+
+
+ABI_PRIMS = ['i8', 'i16', 'i32', 'i64', 'i128', 'u8', 'u16', 'u32', 'u64', 'u128', 'usize', 'bool']
+ABI_ALLOWED = {'i8', 'i16', 'i32', 'i64', 'u8', 'u16', 'u32', 'u64', 'usize'}     # docs/features.md, "Interoperability with C" (char8 is left out: the list does not name it)
+
+
+def c11_extern(deadline, rng, tier):
+    """one witness or None: every primitive type in every position of an extern signature, alone, behind a pointer and in an
+    array view: accepted iff the documentation lists the type, else E358"""
+    if replayrun.build()[0] is None:
+        return None
+    for t in ABI_PRIMS:
+        lit = 'true' if t == 'bool' else '0'
+        for what, src in [('parameter of a head', 'extern fn f(x: %s);\n' % t), ('return type of a head', 'extern fn f() -> %s;\n' % t),
+                          ('parameter of a definition', 'extern fn f(x: %s)\n{\n}\n' % t),
+                          ('return type of a definition', 'extern fn f() -> %s\n{\n\treturn: %s\n}\n' % (t, lit)),
+                          ('element of an array view parameter', 'extern fn f(x: []%s);\n' % t), ('pointee of a pointer parameter', 'extern fn f(x: &%s);\n' % t),
+                          ('pointee of a returned pointer', 'extern fn f() -> &%s;\n' % t)]:
+            r = replayrun.run('alpha', src.encode(), timeout=20)
+            if r.get('status') in ('timeout', 'build-failed', 'unknown'):
+                continue
+            codes = _codes(r)
+            ok = r.get('status') == 'ok' and ((codes == []) if t in ABI_ALLOWED else ('358' in codes))
+            if not ok:
+                exp = 'accept' if t in ABI_ALLOWED else 'reject:358'
+                return {'mode': 'alpha', 'input_utf8_lossy': src, 'input_hex': src.encode().hex(), 'observed': r,
+                        'expected': '%s as %s of an extern function: %s (only array views, pointers and i8..i64, u8..u64, usize are part of the external ABI)' % (t, what, exp),
+                        'expect_verdict': exp, 'how': 'replay_runner alpha <file>'}
+    return None
